@@ -73,7 +73,11 @@ def op_pipeline(pid, tier, seed, fam, wd, focus=None):
     if os.environ.get("VERIF_DEV_SKIP_DESIGN"):   # development aid only: never used by registered commands
         d = dict(distinct=0, generated=0, depth=0, wall=0.0)
     else:
-        d = tlc(wd, "OPDesign.tla", cfg=dcfg, timeout=3600 if tier == "thorough" else 600)
+        # thorough: the larger cfg is explored breadth-first within a time budget (several of them do not finish: the full products of the
+        # argument domains); quick: the small cfg must finish
+        d = tlc(wd, "OPDesign.tla", cfg=dcfg, timeout=int(os.environ.get("VERIF_DEV_BUDGET", "300")), budget=(tier == "thorough"))
+        if d.get("partial"):
+            log(f"[{pid}] design {dcfg}: time budget reached - breadth-first exploration to depth {d['depth']}, no violation so far")
     res["design"] = dict(cfg=dcfg, states=d["distinct"], transitions=d["generated"], depth=d["depth"], wall=round(d["wall"], 1))
     log(f"[{pid}] design {dcfg}: {d['distinct']} distinct / {d['generated']} generated states, depth {d['depth']}, {d['wall']:.0f}s, invariant NoViolation holds")
     # 2. behaviours out of TLC
